@@ -82,7 +82,7 @@ let run_policy parts =
         | _ -> []) in
     let pk = (match mo with Some m -> pack_ok m | None -> true) in
     let evs = pre @ [EvStore (t, eps, k, mo, pk); EvGet (t, k)] in
-    let (_, outs) = run mx (init_state N0) evs in
+    let (_, outs) = cp_run mx (init_state N0) evs in
     let (stored, l, ttls) = (match List.rev outs with
         | OHit (m, s, x) :: _ ->
           ((if int_of_n m.m_hdr.h_id = 0xAAAA then "old" else "new"), Int64.sub (int64_of_z x) (int64_of_z s), ttl_str m)
@@ -176,7 +176,7 @@ let parse_ops (s : string) : hop list =
           httls = if ttls = "x" then [] else List.map Int64.of_string (String.split_on_char '_' ttls) }
       | _ -> failwith ("bad op " ^ tok)) (String.split_on_char ',' s)
 
-(* One run of the model on the scheduled history: otter's ticker has phase [phase_ms] (ticks at T0 - 1 s + phase + k s),
+(* One cp_run of the model on the scheduled history: otter's ticker has phase [phase_ms] (ticks at T0 - 1 s + phase + k s),
    and the cleanup goroutine collects an expired node just before store op number i iff bit i of [collect] is set. *)
 let hist_run (mx : z) (ops : hop list) (phase_ms : int) (collect : int) : string list =
   let t0_ms = 1_000_000 in
@@ -193,7 +193,7 @@ let hist_run (mx : z) (ops : hop list) (phase_ms : int) (collect : int) : string
          let resp = if op.hk = 'n' then None else Some (c08_msg (i + 1) op.hrcode op.htc op.httls) in
          evs := EvStore (t, z_of_int 1000, k, resp, true) :: !evs; what := `Store op.hk :: !what
        | _ -> evs := EvGet (t, k) :: !evs; what := `Get :: !what)) ops;
-  let (_, outs) = run mx (init_state (n_of_int 990)) (List.rev !evs) in
+  let (_, outs) = cp_run mx (init_state (n_of_int 990)) (List.rev !evs) in
   List.concat (List.map2 (fun w o ->
       match w, o with
       | `Skip, _ -> []
